@@ -55,7 +55,23 @@ def gen(rng, tier):
                 c['locals_self'] = 'loc'
                 c['actions'][0].setdefault('watches', []).append('loc')
             yield c
-        elif r < 0.98:
+        elif r < 0.975:
+            # nothing collected before the log message (no frame variables, no watches), then a capture: log values and
+            # the captured value must still be numbered by ONE cache
+            c = cc.gen_case(rng, nobj=rng.choice([6, 10, 16]), capture=rng.choice(['return', 'return', 'exception']),
+                            watches=False, stream='log-then-capture', frame_type='no_frame',
+                            lim={'vars': None, 'str': None, 'coll': rng.choice([None, 3]), 'depth': rng.choice([None, 3])})
+            if rng.random() < 0.3:
+                c['frame_type'] = 'single_frame'
+                c['time_exceeded'] = True
+            names = [nm for nm, _ in c['locals']] or ['0']
+            fields = [rng.choice(names + ['[%s, 1]' % names[0], '"a" + "b"']) for _ in range(rng.randint(1, 2))]
+            fields = [f for f in fields if not any(ch in f for ch in '{}!:')]
+            c['actions'][0]['log'] = 'log ' + ' '.join('%d={%s}' % (k, f) for k, f in enumerate(fields))
+            if c.get('capture') == 'return' and rng.random() < 0.5:
+                c['capture_expr'] = rng.choice(['[%s, 2]' % names[0], names[-1], '(%s, %s)' % (names[0], names[-1])])
+            yield c
+        elif r < 0.985:
             # the budget runs out while a WATCH is being collected, then a capture yields an object that watch recorded
             c = cc.gen_case(rng, nobj=rng.choice([10, 16, 25]), capture='return', watches=False, stream='watch-cut-capture',
                             frame_type=rng.choice(['no_frame', 'no_frame', 'single_frame']),
@@ -91,6 +107,10 @@ def corpus():
                   {'t': 'str', 'v': 'bb'}],
          'locals': [['a', 0], ['b', 4]], 'frame_type': 'single_frame', 'stream': 'corpus', 'capture': 'return',
          'capture_expr': '[a, b, 7]', 'actions': [{'limits': {'vars': 2}}]},
+        # nothing collected before the log message, then a capture of another object
+        {'objs': [{'t': 'str', 'v': 'alpha'}, {'t': 'list', 'e': [0, 0]}], 'locals': [['a', 0], ['b', 1]],
+         'frame_type': 'no_frame', 'stream': 'corpus', 'capture': 'return', 'capture_expr': 'b',
+         'actions': [{'limits': {}, 'log': 'value {a}'}]},
         # the budget runs out inside a watch; the return value is an element that watch recorded
         {'objs': [{'t': 'list', 'e': [1, 2, 3, 4]}, {'t': 'str', 'v': 'first'}, {'t': 'str', 'v': 'second'},
                   {'t': 'str', 'v': 'third'}, {'t': 'str', 'v': 'fourth'}],
